@@ -84,6 +84,7 @@ mutual
 inductive Z where
   | atom (k : Nat) (a : List Lexem) (x : Expr)
   | paren (k : Nat) (f : X)
+  | cparen (k : Nat) (f : X)
 inductive YTail where
   | nil
   | cons (z : Z) (rest : YTail)
@@ -100,6 +101,7 @@ mutual
 def Z.toks : Z → List Lexem
   | .atom k a _ => nots k ++ a
   | .paren k f => nots k ++ (.open_ :: (f.toks ++ [.close]))
+  | .cparen k f => nots k ++ (.copen :: (f.toks ++ [.cclose]))
 def YTail.toks : YTail → List Lexem
   | .nil => []
   | .cons z rest => .and_ :: (z.toks ++ rest.toks)
@@ -117,6 +119,7 @@ mutual
 def Z.tree : Z → Expr
   | .atom k _ x => if parity k then x.negate else x
   | .paren k f => if parity k then f.tree.negate else f.tree
+  | .cparen k f => if parity k then f.tree.negate else f.tree
 def YTail.accum : YTail → Option Expr → Option Expr
   | .nil, acc => acc
   | .cons z rest, acc => rest.accum (some (match acc with | some rr => .logic rr .And z.tree | none => z.tree))
@@ -133,6 +136,7 @@ mutual
 def Z.WF (bs : Bool) : Z → Prop
   | .atom _ a x => AtomCond bs a x
   | .paren _ f => f.WF bs ∧ boolShorthand bs f.tree = f.tree
+  | .cparen _ f => f.WF bs ∧ boolShorthand bs f.tree = f.tree
 def YTail.WF (bs : Bool) : YTail → Prop
   | .nil => True
   | .cons z rest => z.WF bs ∧ rest.WF bs
@@ -188,6 +192,7 @@ theorem stopAnd_xtail (tl : XTail) (r : List Lexem) (hr : StopOr r) : StopAnd (t
   | cons y rest => simp [XTail.toks, StopAnd, StopCond]
 
 theorem stopOr_close (r : List Lexem) : StopOr (.close :: r) := by simp [StopOr, StopCond]
+theorem stopOr_cclose (r : List Lexem) : StopOr (.cclose :: r) := by simp [StopOr, StopCond]
 
 theorem nots_head (k : Nat) (ts : List Lexem) : (nots k ++ (Lexem.open_ :: ts)).head? = some .open_ ∨ (nots k ++ (Lexem.open_ :: ts)).head? = some .not_ := by
   cases k <;> simp [nots]
@@ -218,6 +223,27 @@ theorem parse_Z (bs : Bool) : ∀ (z : Z), z.WF bs → ∀ (r ts : List Lexem), 
       (by simp [E.toks, T.toks, F.toks, TTail.toks, ETail.toks])
     simp only [E.tree, T.tree, F.tree, TTail.fold, ETail.fold] at hE
     have := parseCond_operand bs k (.open_ :: (f.toks ++ .close :: r)) f.tree r hE.1 hE.2 (by simp) hr
+    rw [hbool] at this
+    simpa [Z.tree] using this
+
+  | .cparen k f, h, r, ts, hr, hts => by
+    simp only [Z.WF] at h
+    obtain ⟨hf, hbool⟩ := h
+    simp only [Z.toks, List.append_assoc, List.cons_append, List.nil_append] at hts
+    subst hts
+    -- the bracketed condition is an atom of the arithmetic grammar
+    have hX := parse_X bs f hf (.cclose :: r) (f.toks ++ .cclose :: r) (stopOr_cclose r) rfl
+    have hatom : AtomOK bs (.copen :: (f.toks ++ [.cclose])) f.tree := by
+      intro r'
+      have hX' := parse_X bs f hf (.cclose :: r') (f.toks ++ .cclose :: r') (stopOr_cclose r') rfl
+      rw [show (Lexem.copen :: (f.toks ++ [Lexem.cclose])) ++ r' = Lexem.copen :: (f.toks ++ Lexem.cclose :: r') by simp]
+      exact parseParen_copen bs (f.toks ++ .cclose :: r') f.tree r' hX'.1 hX'.2
+    have hE := parse_E bs (.mk (.mk (.atom (.copen :: (f.toks ++ [.cclose])) f.tree) .nil) .nil)
+      (by simp only [E.WF, T.WF, F.WF, TTail.WF, ETail.WF]; exact ⟨⟨hatom, trivial⟩, trivial⟩)
+      r (.copen :: (f.toks ++ .cclose :: r)) (stopCond_not_arith hr)
+      (by simp [E.toks, T.toks, F.toks, TTail.toks, ETail.toks])
+    simp only [E.tree, T.tree, F.tree, TTail.fold, ETail.fold] at hE
+    have := parseCond_operand bs k (.copen :: (f.toks ++ .cclose :: r)) f.tree r hE.1 hE.2 (by simp) hr
     rw [hbool] at this
     simpa [Z.tree] using this
 
